@@ -292,6 +292,25 @@ def spec_stream(ctx, out, rng, budget):
                         "results", str(e), sig=f"history:timeout:{kind}")
 
 
+def ancestral_stream(ctx, out, rng, budget):
+    """dedicated problems for the fixed-motif model (Model/PruneFixed.lean): deeper trees (4-7 tips, polytomies), one or
+    several rate bins, all nucleotide models in rotation + the 16-state dinucleotide model once; the only call is
+    reconstruct_ancestral_seqs, checked node by node against `lhFixed` (and the pin-leaf evaluation)"""
+    nuc = [m for m, k in U.model_kinds().items() if k == "nucleotide"]
+    for i in range(3 * budget):
+        name = U.DINUC if i == 2 else nuc[(i + 2 * ctx.seed) % len(nuc)]
+        bins = 1 if (i % 2 == 0 or name in U.DISCRETE or name == U.DINUC) else rng.choice([2, 3, 4])
+        spec = U.rand_problem(rng, name, ntips=rng.randint(3, 4) if name == U.DINUC else rng.randint(4, 7), ncols=rng.randint(2, 6), bins=bins,
+                              scoped=False, zero_ok=False, unary=False)
+        spec["history_kind"] = "bins" if bins > 1 else "plain"
+        try:
+            with U.deadline(120):
+                run_history(ctx, spec, rng, out, calls=[dict(method="reconstruct_ancestral_seqs", args=[], kwargs={})])
+        except TimeoutError as e:
+            add_failure(out, "spec", "reconstruct_ancestral_seqs does not terminate", dict(_slim(spec), check="history"),
+                        "results", str(e), sig="history:timeout:ancestral")
+
+
 def recheck(ctx, inp, out):
     if inp.get("check") != "history":
         return False
